@@ -1,4 +1,5 @@
 import Falcon.Lemmas.NttZMod
+import Falcon.Lemmas.NttBreadthFirst
 
 /-!
 # C11 — NTT-based multiplication in Z_q[X]/(X^n+1) is exact
@@ -114,6 +115,12 @@ theorem ntt_mul_exact (d : Nat) (hd : d ≤ 10) (a b : List Nat)
   rw [this, ← List.map_map, c_inttRec, key,
     NttG.intt_ntt T' TI' d 1 _ (NttG.negacyc_length (2 ^ d) hn _ _ hB) (inv_hyp d hd),
     scale_back d v hv2, c_negacyc]
+
+/-- **the model's network is the Rust loop nest**: the forward transform as cyclotomic_fourier.rs runs it — breadth first,
+    the stage with m blocks using `psi_rev[m + i]` for block i — returns exactly what the depth-first network of the model
+    returns (the same modular operations on the same operands; no algebraic law is used), for every n = 2^d -/
+theorem ntt_is_the_breadth_first_loop_nest (d : Nat) (a : List Nat) (ha : a.length = 2 ^ d) :
+    ntt d a = FftFlt.nttBF zqOps T d a := ntt_eq_BF d a ha
 
 /-- the multiplication `⋆` used above is multiplication in Z_q[X]/(X^n+1): X·(p₀,…,p_{n−1}) = (−p_{n−1}, p₀, …) -/
 example : negacyc 4 [0, 1, 0, 0] [1, 2, 3, 4] = [12285, 1, 2, 3] := by decide
